@@ -220,6 +220,7 @@ pub mod collections {
         }
     }
 
+    #[repr(u8)]
     pub enum Entry<'a, K, V> {
         Occupied(OccupiedEntry<'a, K, V>),
         Vacant(VacantEntry<'a, K, V>),
